@@ -64,6 +64,9 @@ structure Param where
   name : Name
   unit : Option Dim
   kind : Kind
+  /-- the variable stored under the key `name` is itself called `name` in the pymc model: the likelihood helper
+  fetches the prior with `prior.model[name]`, so only then is the validated variable the one that is used -/
+  named : Bool
   deriving DecidableEq, Repr, Inhabited
 
 /-! ## names -/
@@ -119,7 +122,7 @@ def checkPresence (env : List Param) : List (Name × Dim) → Except Err Unit
     | some par =>
       match par.unit with
       | none => .error .value
-      | some u => if u = d then checkPresence env rest else .error .value
+      | some u => if u = d ∧ par.named = true then checkPresence env rest else .error .value
 
 /-- second loop: priors of the linear parameters must be Normal / FixedCompanionMass -/
 def checkLinear (env : List Param) : List Name → Except Err Unit
@@ -236,7 +239,7 @@ def defaultTrend (user : List Param) (sv : Option (List (Name × QArg))) :
       | some (.qty dim) =>
         match defaultTrend user sv rest with
         | .error e => .error e
-        | .ok ps => .ok (⟨n, some dim, .normal⟩ :: ps)
+        | .ok ps => .ok (⟨n, some dim, .normal, true⟩ :: ps)
       | _ => .error .unspecified                    -- entry without `.value` / `.unit`, or KeyError
 
 /-- what `default_nonlinear_prior` + `default_linear_prior` hand to `JokerPrior.__init__` -/
@@ -253,7 +256,7 @@ def assemble (d : DefaultInput) : Except Err PriorInput :=
   let sCheck : Except Err (List Param) :=
     match d.s with
     | .missing => .ok []
-    | .tensor un k => .ok (if hasName d.userPars .s then [] else [⟨.s, un, k⟩])
+    | .tensor un k => .ok (if hasName d.userPars .s then [] else [⟨.s, un, k, true⟩])
     | .bare => .error .units
     | .qty dim => if dim = Dim.vel 0 then .ok [] else .error .units
   match sCheck with
@@ -262,10 +265,10 @@ def assemble (d : DefaultInput) : Except Err PriorInput :=
   let user := d.userPars ++ sUser
   let sDim : Dim := match d.s with | .qty dim => dim | _ => Dim.vel 0
   let dflt (n : Name) (par : Param) : List Param := if hasName user n then [] else [par]
-  let nlDefaults := dflt .e ⟨.e, some Dim.one, .otherRV⟩ ++ dflt .omega ⟨.omega, some Dim.angle1, .unnamedOp⟩
-      ++ dflt .M0 ⟨.M0, some Dim.angle1, .unnamedOp⟩ ++ dflt .s ⟨.s, some sDim, .unnamedOp⟩
+  let nlDefaults := dflt .e ⟨.e, some Dim.one, .otherRV, true⟩ ++ dflt .omega ⟨.omega, some Dim.angle1, .unnamedOp, true⟩
+      ++ dflt .M0 ⟨.M0, some Dim.angle1, .unnamedOp, true⟩ ++ dflt .s ⟨.s, some sDim, .unnamedOp, true⟩
   if hasName user .P = false ∧ (d.pMin = .missing ∨ d.pMax = .missing) then .error .value else
-  let nl := nlDefaults ++ dflt .P ⟨.P, some Dim.time1, .otherRV⟩
+  let nl := nlDefaults ++ dflt .P ⟨.P, some Dim.time1, .otherRV, true⟩
   -- default_linear_prior ----------------------------------------------------------------------
   match quantityInput d.sigmaK0 (Dim.vel 0) with
   | .error e => .error e
@@ -288,7 +291,7 @@ def assemble (d : DefaultInput) : Except Err PriorInput :=
     | some par => (match par.unit with | some un => decide (un ≠ Dim.time1) | none => false)
     | none => false
   if hasName user .K = false ∧ pUnitBad = true then .error .units else
-  let kDefault := dflt .K ⟨.K, (match d.sigmaK0 with | .qty dim => some dim | _ => none), .fcm⟩
+  let kDefault := dflt .K ⟨.K, (match d.sigmaK0 with | .qty dim => some dim | _ => none), .fcm, true⟩
   match defaultTrend user sv (trendReq p) with
   | .error e => .error e
   | .ok tr =>
